@@ -91,6 +91,34 @@ func RStr() string { return "orig" }
 //go:noinline
 func RD() D { return -1 }
 
+// structs that are a single pointer-like word (reflect stores such values directly in the interface word)
+type PW struct{ P *S }
+type MW struct{ M map[string]int }
+type FW struct{ F func() int }
+type CW struct{ C chan int }
+type pwStand struct{ Q *S }
+type mwStand struct{ X map[string]int }
+type fwStand struct{ G func() int }
+type cwStand struct{ D chan int }
+
+//go:noinline
+func RPW() PW { return PW{} }
+
+//go:noinline
+func RMW() MW { return MW{} }
+
+//go:noinline
+func RFW() FW { return FW{} }
+
+//go:noinline
+func RCW() CW { return CW{} }
+
+//go:noinline
+func PPW(p PW) int { return -1 }
+
+//go:noinline
+func PBig(id int64) int { return -1 }
+
 //go:noinline
 func RMulti() (int, error) { return -1, errors.New("orig") }
 
@@ -427,6 +455,75 @@ func TestC09(t *testing.T) {
 			if got := hid.Take(hid.Make(2, "k", 1.5)); got != 0 {
 				rep.Violate("C09/standin-when-arg-not-compared-as-declared-type", fmt.Sprintf("Take(different value) = %d want 0", got), nil)
 			}
+		}
+		b.Reset()
+	}
+	// ---- stand-ins for structs that consist of one pointer-like word
+	{
+		theMap := map[string]int{"k": 1}
+		type one struct {
+			name   string
+			conf   func(b *mocker.Builder)
+			ok     func() (bool, string)
+			origOK func() bool
+		}
+		for _, o := range []one{
+			{"PW<-pwStand", func(b *mocker.Builder) { b.Func(RPW).Return(pwStand{Q: theS}) }, func() (bool, string) { r := RPW(); return r.P == theS, fmt.Sprintf("P=%p want %p", r.P, theS) }, func() bool { return RPW().P == nil }},
+			{"PW<-PW", func(b *mocker.Builder) { b.Func(RPW).Return(PW{P: theS}) }, func() (bool, string) { r := RPW(); return r.P == theS, fmt.Sprintf("P=%p want %p", r.P, theS) }, func() bool { return RPW().P == nil }},
+			{"MW<-mwStand", func(b *mocker.Builder) { b.Func(RMW).Return(mwStand{X: theMap}) }, func() (bool, string) {
+				r := RMW()
+				return r.M != nil && r.M["k"] == 1 && len(r.M) == 1, fmt.Sprintf("M=%v", r.M)
+			}, func() bool { return RMW().M == nil }},
+			{"FW<-fwStand", func(b *mocker.Builder) { b.Func(RFW).Return(fwStand{G: theFunc}) }, func() (bool, string) { r := RFW(); return r.F != nil && r.F() == 42, "F" }, func() bool { return RFW().F == nil }},
+			{"CW<-cwStand", func(b *mocker.Builder) { b.Func(RCW).Return(cwStand{D: theChan}) }, func() (bool, string) { r := RCW(); return r.C == theChan, "C" }, func() bool { return RCW().C == nil }},
+		} {
+			b := mocker.Create()
+			var cerr, perr interface{}
+			func() {
+				defer func() { cerr = recover() }()
+				o.conf(b)
+			}()
+			rep.Eval(1)
+			rep.Class("one-word-struct/" + o.name)
+			if cerr != nil {
+				rep.Violate("C09/standin-rejected", fmt.Sprintf("%s: layout-identical one-word struct rejected: %v", o.name, firstLine(cerr)), nil)
+			} else {
+				okv, how := false, ""
+				func() {
+					defer func() { perr = recover() }()
+					okv, how = o.ok()
+				}()
+				if perr != nil || !okv {
+					rep.Violate("C09/standin-altered", fmt.Sprintf("%s: one-pointer-word struct delivered altered (%s, panic %v)", o.name, how, perr), nil)
+				}
+			}
+			b.Reset()
+			if !safeOrig(o.origOK) {
+				rep.Violate("C09/not-reset", o.name, nil)
+			}
+		}
+		// as a When argument
+		b := mocker.Create()
+		var cerr interface{}
+		func() {
+			defer func() { cerr = recover() }()
+			b.Func(PPW).Return(0).When(pwStand{Q: theS}).Return(1)
+		}()
+		rep.Eval(1)
+		rep.Class("one-word-struct/when-arg")
+		if cerr != nil {
+			rep.Violate("C09/standin-rejected", fmt.Sprintf("one-word stand-in as When argument rejected: %v", firstLine(cerr)), nil)
+		} else if a, c2 := PPW(PW{P: theS}), PPW(PW{P: &S{}}); a != 1 || c2 != 0 {
+			rep.Violate("C09/standin-when-arg-not-compared-as-declared-type", fmt.Sprintf("PPW(equal)=%d want 1, PPW(other)=%d want 0", a, c2), nil)
+		}
+		b.Reset()
+		// large integers given to When are compared as int64, not through another representation
+		b = mocker.Create()
+		b.Func(PBig).Return(0).When(int64(1) << 60).Return(1).When(int64(1)<<60 + 2).Return(2)
+		rep.Eval(1)
+		rep.Class("when-arg/large-int64")
+		if x, y, z := PBig(1<<60), PBig(1<<60+2), PBig(1<<60+1); x != 1 || y != 2 || z != 0 {
+			rep.Violate("C09/when-argument-altered", fmt.Sprintf("When(1<<60)->1, When(1<<60+2)->2: got %d %d, and %d for 1<<60+1 (want 1 2 0)", x, y, z), nil)
 		}
 		b.Reset()
 	}
